@@ -415,19 +415,41 @@ func RunC13(c *Ctx, r *Report) {
 		r.undecided(prefix+"default-arm", "loop", c.Pos(fn.Pos()), "the type switch is not inside a loop")
 		return
 	}
-	var cursor, nextT *ssa.Phi
+	// loop state: the next-payload value and the cursor. The cursor is either a loop-carried byte slice that
+	// is re-sliced (b = b[length:]) or an integer offset with the current payload taken as b[offset:].
+	var cursor, nextT, offPhi *ssa.Phi
+	var cursorVal ssa.Value
 	for _, ins := range loop.header.Instrs {
 		if p, ok := ins.(*ssa.Phi); ok {
 			if isByteSlice(p.Type()) {
 				cursor = p
+				cursorVal = p
 			} else if b, ok := p.Type().Underlying().(*types.Basic); ok && b.Kind() == types.Uint8 {
 				nextT = p
 			}
 		}
 	}
+	if cursor == nil {
+		for _, ins := range loop.header.Instrs {
+			p, ok := ins.(*ssa.Phi)
+			if !ok {
+				continue
+			}
+			if b, ok := p.Type().Underlying().(*types.Basic); !ok || b.Kind() != types.Int {
+				continue
+			}
+			for _, ref := range *p.Referrers() {
+				if sl, ok := ref.(*ssa.Slice); ok && sl.Low == ssa.Value(p) && sl.High == nil && loop.body[sl.Block()] {
+					if _, isParam := sl.X.(*ssa.Parameter); isParam && isByteSlice(sl.Type()) {
+						offPhi, cursorVal = p, sl
+					}
+				}
+			}
+		}
+	}
 	ruleD := prefix + "default-arm"
 	r.Rule(ruleD, "default arm: continue iff the critical bit (bit 7 of octet 1 of the current generic header) is clear, with the same φ updates as the normal path and no append; otherwise return an error", 5)
-	if cursor == nil || nextT == nil {
+	if cursorVal == nil || nextT == nil {
 		r.undecided(ruleD, "loop state", c.Pos(fn.Pos()), "cannot identify the cursor and next-payload φ-nodes of the walker loop")
 		return
 	}
@@ -489,7 +511,7 @@ func RunC13(c *Ctx, r *Report) {
 	if len(leaves) == 1 {
 		base, idx, isEl = isElemLoad(leaf)
 	}
-	if !isEl || base != ssa.Value(cursor) || idx != 1 {
+	if !isEl || base != cursorVal || idx != 1 {
 		r.bad(ruleD, "default arm tests the critical bit", c.InstrPos(iff), "the branch condition is not a function of octet 1 of the current generic header only")
 		return
 	}
@@ -557,41 +579,91 @@ func RunC13(c *Ctx, r *Report) {
 	}
 	r.Check(okPath && effects == "", ruleD, "skip path has no effect", c.InstrPos(skip.Instrs[0]), "the skip edge jumps back to the loop header without storing, appending or calling", "the skip path is not a plain jump back to the header: "+effects)
 	if okPath {
-		last := skip
-		if len(path) > 0 {
-			last = path[len(path)-1]
+		// the values the header φ-nodes receive along the skip path and along every normal path (a shared
+		// latch block with its own φ-nodes is looked through)
+		skipPath := append([]*ssa.BasicBlock{def}, path...)
+		if len(path) == 0 {
+			skipPath = []*ssa.BasicBlock{def, skip}
 		}
-		// φ edges from `last` vs from the normal back edge(s)
-		var skipIdx = -1
-		var normIdx []int
-		for i, p := range loop.header.Preds {
-			if p == last {
-				skipIdx = i
-			} else if loop.body[p] {
-				normIdx = append(normIdx, i)
+		onSkip := map[*ssa.BasicBlock]bool{}
+		for _, b := range skipPath {
+			onSkip[b] = true
+		}
+		var normPaths [][]*ssa.BasicBlock
+		for _, p := range loop.header.Preds {
+			if !loop.body[p] {
+				continue
+			}
+			if !onSkip[p] {
+				normPaths = append(normPaths, []*ssa.BasicBlock{p})
+				continue
+			}
+			// p lies on the skip path (a shared latch): the other ways into it are the normal paths
+			for _, q := range p.Preds {
+				if !onSkip[q] && loop.body[q] {
+					normPaths = append(normPaths, []*ssa.BasicBlock{q, p})
+				}
 			}
 		}
-		same := skipIdx >= 0 && len(normIdx) > 0
+		valueOn := func(ph *ssa.Phi, pth []*ssa.BasicBlock) ssa.Value {
+			lastB := pth[len(pth)-1]
+			var v ssa.Value
+			for i, p := range loop.header.Preds {
+				if p == lastB {
+					v = ph.Edges[i]
+				}
+			}
+			for i := len(pth) - 1; i >= 1 && v != nil; i-- {
+				if inner, ok := v.(*ssa.Phi); ok && inner.Block() == pth[i] {
+					for j, p := range pth[i].Preds {
+						if p == pth[i-1] {
+							v = inner.Edges[j]
+						}
+					}
+				}
+			}
+			return v
+		}
+		stateVar := cursor
+		if stateVar == nil {
+			stateVar = offPhi
+		}
+		same := len(normPaths) > 0 && stateVar != nil
 		detail := ""
+		var skipNext, skipCur ssa.Value
 		if same {
-			for _, ni := range normIdx {
-				if !sameExpr(nextT.Edges[skipIdx], nextT.Edges[ni], 0) {
+			skipNext, skipCur = valueOn(nextT, skipPath), valueOn(stateVar, skipPath)
+			if skipNext == nil || skipCur == nil {
+				same = false
+				detail = "the skip path does not reach the loop header"
+			}
+		}
+		if same {
+			for _, np := range normPaths {
+				if !sameExpr(skipNext, valueOn(nextT, np), 0) {
 					same = false
 					detail = "next-payload update differs from the normal path"
 				}
-				if !sameExpr(cursor.Edges[skipIdx], cursor.Edges[ni], 0) {
+				if !sameExpr(skipCur, valueOn(stateVar, np), 0) {
 					same = false
 					detail = "cursor advance differs from the normal path"
 				}
 			}
-			// and they are b[0] and b[length:]
-			if b0, i0, ok := isElemLoad(nextT.Edges[skipIdx]); !ok || b0 != ssa.Value(cursor) || i0 != 0 {
+			// and they are b[0] and b[length:] (resp. offset + length)
+			if b0, i0, ok := isElemLoad(skipNext); !ok || b0 != cursorVal || i0 != 0 {
 				same = false
 				detail = "next payload type is not octet 0 of the skipped payload's generic header"
 			}
-			if sl, ok := cursor.Edges[skipIdx].(*ssa.Slice); !ok || sl.X != ssa.Value(cursor) || sl.High != nil || sl.Low == nil {
-				same = false
-				detail = "cursor is not advanced by slicing off the skipped payload"
+			if cursor != nil {
+				if sl, ok := skipCur.(*ssa.Slice); !ok || sl.X != ssa.Value(cursor) || sl.High != nil || sl.Low == nil {
+					same = false
+					detail = "cursor is not advanced by slicing off the skipped payload"
+				}
+			} else {
+				if add, ok := skipCur.(*ssa.BinOp); !ok || add.Op != token.ADD || add.X != ssa.Value(offPhi) {
+					same = false
+					detail = "the offset is not advanced by adding the skipped payload's length"
+				}
 			}
 		}
 		r.Check(same, ruleD, "skip path updates next type and cursor like the normal path", c.InstrPos(skip.Instrs[0]), "nextPayload = b[0] and b = b[payloadLength:] on both back edges (structurally equal expressions)", detail)
@@ -612,7 +684,7 @@ func RunC13(c *Ctx, r *Report) {
 				continue
 			}
 			bs, i, ok := isElemLoad(v)
-			if !ok || bs != ssa.Value(cursor) || i != 1 {
+			if !ok || bs != cursorVal || i != 1 {
 				continue
 			}
 			nLoads++
@@ -648,7 +720,7 @@ func RunC13(c *Ctx, r *Report) {
 		for _, ins := range b.Instrs {
 			if call, ok := ins.(*ssa.Call); ok && call.Call.IsInvoke() && call.Call.Method.Name() == "Unmarshal" {
 				sl, ok := call.Call.Args[0].(*ssa.Slice)
-				if !ok || sl.X != ssa.Value(cursor) || sl.Low == nil {
+				if !ok || sl.X != cursorVal || sl.Low == nil {
 					hdrExcluded = false
 					continue
 				}
